@@ -8,6 +8,8 @@ import (
 	"flag"
 	"fmt"
 	"os"
+	"path/filepath"
+	"sort"
 	"strconv"
 	"time"
 
@@ -18,6 +20,7 @@ import (
 func main() {
 	engine := flag.String("engine", "both", "v1|v2|both")
 	maxprocs := flag.Int("gomaxprocs", 0, "force GOMAXPROCS of every generated case (0 = generated)")
+	corpus := flag.String("corpus", "", "directory of *.jsonl regression inputs that are run before the generated cases")
 	child := flag.Bool("child", false, "internal: run cases from stdin (the engines run in a child process)")
 	o := hx.ParseFlags()
 	deadline := 2500 * time.Millisecond
@@ -71,6 +74,22 @@ func main() {
 			emit(c)
 		}
 	} else {
+		if *corpus != "" {
+			files, _ := filepath.Glob(filepath.Join(*corpus, "*.jsonl"))
+			sort.Strings(files)
+			for _, f := range files {
+				cs, err := hx.ReadJSONL(f)
+				if err != nil {
+					continue
+				}
+				for _, m := range cs {
+					var c enginex.Case
+					if hx.Try(func() { c = enginex.CaseFromJSON(m) }) {
+						emit(c)
+					}
+				}
+			}
+		}
 		root := hx.NewRand(o.Seed)
 		for i := 0; i < o.N; i++ {
 			r := root.Fork(uint64(o.Shard)<<32 | uint64(i))
@@ -82,6 +101,10 @@ func main() {
 			mal := r.Chance(1, 30)
 			malformed := mal && eng == "v2" && chk == "chk01"
 			c := enginex.Gen(r, eng, malformed)
+			if i%16 == 12 || i%16 == 13 {
+				// a fixed 1 in 8 of the cases of each engine: cancel in the middle of a fan-out
+				c = enginex.GenDirected(r, eng)
+			}
 			if *maxprocs > 0 {
 				c.GoMaxProcs = *maxprocs
 			}
